@@ -126,6 +126,34 @@ func requests(r *mc.Run) {
 			for l := 49; l < len(good); l++ { // 48 bytes is a plain, unauthenticated NTP request
 				judge(bytes.Clone(good[:l]), in{Kind: "request-trunc", Level: level, Byte: l}, fmt.Sprintf("truncation to %d bytes", l))
 			}
+			// unauthenticated fields appended after the authenticator: if the listener
+			// answers at all, the reply must carry the authenticated unique identifier
+			var gp nts.Packet
+			nts.DecodePacket(&gp, good)
+			for name, tail := range map[string][]byte{
+				"unique-identifier": append([]byte{0x01, 0x04, 0x00, 0x24}, bytes.Repeat([]byte{0x5c}, 32)...),
+				"cookie":            append([]byte{0x02, 0x04, 0x00, 0x80}, make([]byte, 124)...),
+			} {
+				if len(good)+len(tail) > 1024 {
+					continue
+				}
+				m := append(bytes.Clone(good), tail...)
+				r.Evals++
+				n++
+				from := netip.AddrPortFrom(netip.AddrFrom4([4]byte{10, 3, byte(n >> 8), byte(n)}), 4000)
+				out := nw.ToServer(&vnet.Datagram{From: from, To: nw.SrvAddr, Data: m})
+				if len(w.Panics) > 0 {
+					w.Panics = nil
+					nw.StartListener()
+					continue
+				}
+				for _, o := range out {
+					var rp nts.Packet
+					if nts.DecodePacket(&rp, o.Data) == nil && !bytes.Equal(rp.UniqueID.ID[:32], gp.UniqueID.ID[:32]) {
+						r.Fail("request", "reply-echoes-unauthenticated-identifier", fmt.Sprintf("request at level %d with an unauthenticated %s field appended: the reply carries an identifier that was not authenticated", level, name), in{Kind: "request-append", Level: level})
+					}
+				}
+			}
 			// wrong key / direction / session
 			for name, key := range map[string][]byte{"s2c-instead-of-c2s": sess.S2C, "other-session": other.C2S} {
 				d := sess.Data(level)
@@ -229,6 +257,45 @@ func responses(r *mc.Run) {
 				r.Fail("response", "response-under-wrong-key-accepted", name, in{Kind: "response-key", Level: ncook})
 			}
 		}
+		// data appended after the authenticator is not authenticated: it must not
+		// make the packet pass for a different request, nor add cookies
+		otherUID := bytes.Repeat([]byte{0x5c}, 32)
+		ext := func(t uint16, body []byte) []byte {
+			b := make([]byte, 4, 4+len(body))
+			binary.BigEndian.PutUint16(b, t)
+			binary.BigEndian.PutUint16(b[2:], uint16(4+len(body)))
+			return append(b, body...)
+		}
+		tails := map[string][]byte{
+			"unique-identifier": ext(0x104, otherUID),
+			"cookie":            ext(0x204, bytes.Repeat([]byte{0x77}, 124)),
+			"placeholder":       ext(0x304, make([]byte, 124)),
+			"unknown":           ext(0x999, make([]byte, 28)),
+			"second-authenticator": func() []byte {
+				r2 := nts.NewResponsePacket(cookies[:1], otherKey, otherUID)
+				b2 := bytes.Clone(hdr)
+				nts.EncodePacket(&b2, &r2)
+				return b2[authRegion(b2):]
+			}(),
+			"uid+padding": append(ext(0x104, otherUID), make([]byte, 28)...),
+		}
+		for name, tail := range tails {
+			if len(good)+len(tail) > 2048 {
+				continue
+			}
+			m := append(bytes.Clone(good), tail...)
+			r.Evals++
+			r.Distinct++
+			if ok, _ := accept(m, key, otherUID); ok {
+				r.Fail("response", "response-to-other-request-accepted", fmt.Sprintf("genuine response to request A with an unauthenticated %s field appended is accepted for request B", name), in{Kind: "response-append", Level: ncook})
+			}
+			if ok, _ := accept(m, otherKey, otherUID); ok {
+				r.Fail("response", "response-under-wrong-key-accepted", fmt.Sprintf("appended %s: accepted under another session's key", name), in{Kind: "response-append", Level: ncook})
+			}
+			if ok, n := accept(m, key, uid); ok && n != ncook {
+				r.Fail("response", "unauthenticated-cookie-stored", fmt.Sprintf("appended %s: response accepted with %d cookies, %d were sealed", name, n, ncook), in{Kind: "response-append", Level: ncook})
+			}
+		}
 		wrong := bytes.Clone(uid)
 		wrong[31] ^= 1
 		r.Evals++
@@ -328,6 +395,6 @@ func TestCheck(t *testing.T) {
 		}
 		r.Sample(in{Kind: "request", Level: 5, Byte: 100, Bit: 3})
 		r.Sample(in{Kind: "response-field", Level: 2, Byte: 86, Val: 0xffff})
-		r.Extra["rule"] = "requests of the project's encoder at pool levels 2..8 through the real IP listener, responses with 1..7 cookies through DecodePacket/ProcessResponse, three sealed cookies through Decode/Decrypt: every single-bit flip, every extension type/length and nonce/ciphertext length field over 8+3 values, every truncation, wrong key / direction / session, wrong and shortened unique identifier; distinct = distinct mutated packets"
+		r.Extra["rule"] = "requests of the project's encoder at pool levels 2..8 through the real IP listener, responses with 1..7 cookies through DecodePacket/ProcessResponse, three sealed cookies through Decode/Decrypt: every single-bit flip, every extension type/length and nonce/ciphertext length field over 8+3 values, every truncation, wrong key / direction / session, wrong and shortened unique identifier, unauthenticated fields (unique identifier, cookie, placeholder, unknown, second authenticator) appended after the authenticator; distinct = distinct mutated packets"
 	})
 }
